@@ -81,3 +81,47 @@ def run(ctx, rep, rid="R-C04-magnitude", crates=None):
             else:
                 r.ok(inst, where, "bounds: " + ", ".join(sorted({s[0] + ":" + str(s[1]).split("::")[-1] for s in sources}))[:100])
     r.note("%d integer ranges consumed as iterators" % n)
+
+
+def run_errrun(ctx, rep, rid="R-C04-errrun"):
+    """The generated lexer reports text that is no token one piece at a time (logos gives one error per character it cannot place).  A
+    problem is shown with its whole source line, so one problem per piece costs (pieces x line length): a line of 8000 stray characters
+    took 44 s to report.  In lexer::tokenize the arm that handles a lexer error therefore pushes nothing to the list of problems on its
+    way back to the loop head - the pieces are gathered and reported as one run when the next token (or the end) comes."""
+    from vlib.mir import switch_info
+    from vlib.inline import inlined
+    r = rep.rule(rid, "lexer::tokenize reports a run of invalid text once: the arm for a lexer error adds no problem on its way round the loop (one problem per "
+                      "invalid character makes output and time quadratic)", floor=1, floor_what="lexer error arms")
+    lb = ctx.prog.get("ironplc_parser::lexer::tokenize")
+    if not lb:
+        rep.error(rid, "lexer::tokenize not found")
+        return
+    b = inlined(ctx.prog, lb[0])
+    where = "%s:%d" % (b.f["file"], b.f["line"])
+    heads = [c for c in b.calls() if (c.u or c.callee or "").endswith("Iterator::next") and "Lexer" in (c.ga or "") + (c.callee or "")]
+    if not heads:
+        heads = [c for c in b.calls() if (c.u or c.callee or "").split("::")[-1] == "next"]
+    n = 0
+    for i in sorted(b.reachable(0)):
+        si = switch_info(b, i)
+        if not si or si["kind"] != "disc" or si.get("adt") != "core::result::Result":
+            continue
+        for succ, labs in si["edges"].items():
+            if labs != ["Err"]:
+                continue
+            n += 1
+            region = b.reachable(succ, avoid=tuple(h.bb for h in heads))
+            pushes = []
+            for c in b.calls():
+                if c.bb in region and (c.callee or "").endswith("Vec::push") and c.args:
+                    p = op_place(c.args[0])
+                    ty = b.local_ty(b.root(p)[0]) if p is not None else ""
+                    if "diagnostic::Diagnostic" in (ty or "") or "Diagnostic" in (c.ga or ""):
+                        pushes.append(c)
+            inst = "lexer::tokenize|error arm#%d" % n
+            if pushes:
+                r.finding(inst + "|one problem per lexer error", loc_str(b.f, pushes[0].loc), "every lexer error adds a problem of its own: a run of N invalid characters gives N problems, each shown with the whole line")
+            else:
+                r.ok(inst, where, "gathers the run; reported when the next token or the end comes")
+    if not n:
+        rep.error(rid, "no match on the lexer's Result in lexer::tokenize")
